@@ -513,6 +513,18 @@ pub fn load_program_from_bytes(bytes: &[u8]) -> MResult<ParsedProgram> {
   load_program_from_reader(&mut cur, total_len)
 }
 
+// A section described by the header must lie inside the file: checked before anything is
+// allocated for it, so that a hostile length is an error and not an allocation.
+fn section_in_file(off: u64, len: u64, total_len: u64) -> MResult<()> {
+  match off.checked_add(len) {
+    Some(end) if end <= total_len => Ok(()),
+    _ => Err(MechError::new(
+      FileTooShortError { total_len, expected_len: off.saturating_add(len) },
+      None
+    ).with_compiler_loc()),
+  }
+}
+
 fn load_program_from_reader<R: Read + Seek>(r: &mut R, total_len: u64) -> MResult<ParsedProgram> {
   r.seek(SeekFrom::Start(0))?;
   let mut header_buf = vec![0u8; ByteCodeHeader::HEADER_SIZE];
@@ -532,7 +544,7 @@ fn load_program_from_reader<R: Read + Seek>(r: &mut R, total_len: u64) -> MResul
 
   // 2. read features
   let mut features = Vec::new();
-  if header.feature_off != 0 && header.feature_off + 4 <= total_len.saturating_sub(4) {
+  if header.feature_off != 0 && header.feature_off.checked_add(4).map_or(false, |end| end <= total_len.saturating_sub(4)) {
     r.seek(SeekFrom::Start(header.feature_off))?;
     let c = r.read_u32::<LittleEndian>()? as usize;
     for _ in 0..c {
@@ -543,7 +555,7 @@ fn load_program_from_reader<R: Read + Seek>(r: &mut R, total_len: u64) -> MResul
 
   // 3. read types
   let mut types = TypeSection::new();
-  if header.types_off != 0 && header.types_off + 4 <= total_len.saturating_sub(4) {
+  if header.types_off != 0 && header.types_off.checked_add(4).map_or(false, |end| end <= total_len.saturating_sub(4)) {
     r.seek(SeekFrom::Start(header.types_off))?;
     let types_count = r.read_u32::<LittleEndian>()? as usize;
     for _ in 0..types_count {
@@ -551,6 +563,7 @@ fn load_program_from_reader<R: Read + Seek>(r: &mut R, total_len: u64) -> MResul
       let _reserved = r.read_u16::<LittleEndian>()?; // reserved, always 0
       let _version = r.read_u32::<LittleEndian>()?; // version, always 1
       let bytes_len = r.read_u32::<LittleEndian>()? as usize;
+      section_in_file(0, bytes_len as u64, total_len)?;
       let mut bytes = vec![0u8; bytes_len];
       r.read_exact(&mut bytes)?;
       if let Some(tag) = TypeTag::from_u16(tag) {
@@ -567,6 +580,7 @@ fn load_program_from_reader<R: Read + Seek>(r: &mut R, total_len: u64) -> MResul
   // 4. read const table
   let mut const_entries = Vec::new();
   if header.const_tbl_off != 0 && header.const_tbl_len > 0 {
+    section_in_file(header.const_tbl_off, header.const_tbl_len, total_len)?;
     r.seek(SeekFrom::Start(header.const_tbl_off))?;
     let mut tbl_bytes = vec![0u8; header.const_tbl_len as usize];
     r.read_exact(&mut tbl_bytes)?;
@@ -577,6 +591,7 @@ fn load_program_from_reader<R: Read + Seek>(r: &mut R, total_len: u64) -> MResul
   // read const blob
   let mut const_blob = vec![];
   if header.const_blob_off != 0 && header.const_blob_len > 0 {
+    section_in_file(header.const_blob_off, header.const_blob_len, total_len)?;
     r.seek(SeekFrom::Start(header.const_blob_off))?;
     const_blob.resize(header.const_blob_len as usize, 0);
     r.read_exact(&mut const_blob)?;
@@ -586,6 +601,7 @@ fn load_program_from_reader<R: Read + Seek>(r: &mut R, total_len: u64) -> MResul
   let mut symbols = HashMap::new();
   let mut mutable_symbols = HashSet::new();
   if header.symbols_off != 0 && header.symbols_len > 0 {
+    section_in_file(header.symbols_off, header.symbols_len, total_len)?;
     r.seek(SeekFrom::Start(header.symbols_off))?;
     let mut symbols_bytes = vec![0u8; header.symbols_len as usize];
     r.read_exact(&mut symbols_bytes)?;
@@ -604,6 +620,7 @@ fn load_program_from_reader<R: Read + Seek>(r: &mut R, total_len: u64) -> MResul
   // 6. read instr bytes
   let mut instr_bytes = vec![];
   if header.instr_off != 0 && header.instr_len > 0 {
+    section_in_file(header.instr_off, header.instr_len, total_len)?;
     r.seek(SeekFrom::Start(header.instr_off))?;
     instr_bytes.resize(header.instr_len as usize, 0);
     r.read_exact(&mut instr_bytes)?;
@@ -612,6 +629,7 @@ fn load_program_from_reader<R: Read + Seek>(r: &mut R, total_len: u64) -> MResul
   // 7. read dictionary
   let mut dictionary = HashMap::new();
   if header.dict_off != 0 && header.dict_len > 0 {
+    section_in_file(header.dict_off, header.dict_len, total_len)?;
     r.seek(SeekFrom::Start(header.dict_off))?;
     let mut dict_bytes = vec![0u8; header.dict_len as usize];
     r.read_exact(&mut dict_bytes)?;
@@ -619,6 +637,7 @@ fn load_program_from_reader<R: Read + Seek>(r: &mut R, total_len: u64) -> MResul
     while cur.position() < dict_bytes.len() as u64 {
       let id = cur.read_u64::<LittleEndian>()?;
       let name_len = cur.read_u32::<LittleEndian>()? as usize;
+      section_in_file(0, name_len as u64, dict_bytes.len() as u64)?;
       let mut name_bytes = vec![0u8; name_len];
       cur.read_exact(&mut name_bytes)?;
       let name = String::from_utf8(name_bytes).map_err(|_| 
@@ -680,7 +699,8 @@ impl ParsedConstEntry {
 }
 
 fn parse_const_entries(mut cur: Cursor<&[u8]>, count: usize) -> io::Result<Vec<ParsedConstEntry>> {
-  let mut out = Vec::with_capacity(count);
+  // never reserve more entries than the table's bytes can hold (24 bytes each)
+  let mut out = Vec::with_capacity(count.min(cur.get_ref().len() / 24));
   for _ in 0..count {
     let type_id = cur.read_u32::<LittleEndian>()?;
     let enc = cur.read_u8()?;
